@@ -302,7 +302,7 @@ func fieldName(fa *ssa.FieldAddr) string {
 	if !ok {
 		return "?"
 	}
-	return typeShort(t) + "." + st.Field(fa.Field).Name()
+	return typeShort(t) + "." + fldName(st.Field(fa.Field))
 }
 
 func (c *provCtx) evalLoad(addr ssa.Value) []pattern {
